@@ -99,15 +99,46 @@ type sinkWriter struct {
 	want int
 	pos  *int64
 	bad  *string
+	// partial: the first Write is a partial one that ends in a time-out (odd sizes)
+	partial bool
+	started bool
+	base    int64 // stream position of the first byte this writer is given
+	recv    int64 // bytes received so far
 }
+
+// partialTimeout is what a net.Conn with a write deadline returns when the deadline runs
+// out in the middle of a Write: the bytes it did send, and a time-out error.
+type partialTimeout struct{}
+
+func (partialTimeout) Error() string   { return "i/o timeout (injected)" }
+func (partialTimeout) Timeout() bool   { return true }
+func (partialTimeout) Temporary() bool { return true }
 
 func (w *sinkWriter) Write(p []byte) (int, error) {
 	vsched.Yield()
-	if i := check(p, *w.pos); i >= 0 && *w.bad == "" {
-		*w.bad = fmt.Sprintf("WriteTo delivered a wrong byte at stream position %d", *w.pos+int64(i))
+	if !w.started {
+		w.started, w.base = true, *w.pos
+	}
+	// what the sink sees is one contiguous stream, whatever WriteTo commits or does not
+	// commit after a failed Write: every byte once, in order
+	at := w.base + w.recv
+	timedOut := false
+	if w.partial && len(p) > 1 {
+		// the first Write takes half of what it is given and reports a time-out
+		w.partial = false
+		p = p[:len(p)/2]
+		timedOut = true
+	}
+	if i := check(p, at); i >= 0 && *w.bad == "" {
+		*w.bad = fmt.Sprintf("WriteTo delivered a wrong byte at stream position %d (the writer had received %d bytes before this Write)", at+int64(i), w.recv)
+	}
+	w.recv += int64(len(p))
+	w.want -= len(p)
+	if timedOut {
+		// not committed by WriteTo, which returns the error (and closes the buffer)
+		return len(p), partialTimeout{}
 	}
 	*w.pos += int64(len(p))
-	w.want -= len(p)
 	if w.want <= 0 {
 		// WriteTo returns without committing this chunk: it stays in the ring
 		*w.pos -= int64(len(p))
@@ -266,8 +297,9 @@ func runConsumer(bf *service.VerifBuffer, prog []op, cpos *int64) string {
 			*cpos += int64(n)
 		case 'T':
 			bad := ""
-			w := &sinkWriter{want: o.N, pos: cpos, bad: &bad}
+			w := &sinkWriter{want: o.N, pos: cpos, bad: &bad, partial: o.N%2 == 1 && o.N > 1}
 			bf.WriteTo(w)
+
 			if bad != "" {
 				return bad
 			}
